@@ -169,6 +169,7 @@ SigCases ==
   \cup { << "der_tag", w, t >> : w \in 1..3, t \in 0..255 }
   \cup { << "der_trunc", k >> : k \in 0..Len(DerDefault) }
   \cup { << "der_tail", v >> : v \in 1..3 }
+  \cup { << "der_lt", w, f, k >> : w \in { 1, 2 }, f \in LenForms, k \in 1..12 }     \* input ends inside a (long-form) length field
 ExpandDer(c) ==
   CASE c[1] = "der_seq" -> Der(48, c[2], c[3], 2, 0, 0, 9, 2, 0, 0, 9, << >>)
     [] c[1] = "der_int" -> IF c[2] = 1 THEN Der(48, 0, 0, 2, c[3], c[4], c[5], 2, 0, 0, 9, << >>)
@@ -178,6 +179,8 @@ ExpandDer(c) ==
                            ELSE IF c[2] = 2 THEN Der(48, 0, 0, c[3], 0, 0, 9, 2, 0, 0, 9, << >>)
                            ELSE Der(48, 0, 0, 2, 0, 0, 9, c[3], 0, 0, 9, << >>)
     [] c[1] = "der_trunc" -> SubSeq(DerDefault, 1, c[2])
+    [] c[1] = "der_lt" -> LET full == IF c[2] = 1 THEN << 48 >> \o LenEnc(c[3], 70) ELSE << 48, 70, 2 >> \o LenEnc(c[3], 33)
+                          IN  SubSeq(full, 1, IF c[4] <= Len(full) THEN c[4] ELSE Len(full))
     [] c[1] = "der_tail" -> DerDefault \o (CASE c[2] = 1 -> << 0 >> [] c[2] = 2 -> << 48, 0 >> [] c[2] = 3 -> Rep(255, 40))
 
 (* ---------------- BIP-340 verification ---------------- *)
@@ -299,7 +302,7 @@ ExpandGrammar(c) ==
     [] c[1] = "sk"    -> DRec("USeckey", Pool32[c[2]])
     [] c[1] = "sigc"  -> DRec("USigCompact", Pool32[c[2]] \o Pool32[c[3]])
     [] c[1] = "recsig" -> MkRec("URecSig", [ data |-> Pool32[c[2]] \o Pool32[c[3]], recid |-> c[4] ])
-    [] c[1] \in { "der_seq", "der_int", "der_rs", "der_tag", "der_trunc", "der_tail" } -> DRec("USigDer", ExpandDer(c))
+    [] c[1] \in { "der_seq", "der_int", "der_rs", "der_tag", "der_trunc", "der_tail", "der_lt" } -> DRec("USigDer", ExpandDer(c))
     [] c[1] = "schnorr" -> MkRec("USchnorr", [ data |-> Pool32[c[2]] \o Pool32[c[3]], msg |-> Cut(Rnd32(16), c[4]) ])
     [] c[1] = "p33"   -> DRec(P33Op(c[2]), << c[3] >> \o X5[c[4]])
     [] c[1] = "n66"   -> LET half == << c[4] >> \o X3[c[5]] IN
@@ -366,6 +369,7 @@ ExpandMut(c) == MkRec(Arts[c[2]].e, [ Arts[c[2]].in EXCEPT !.data = Mutate(c) ])
 
 -----------------------------------------------------------------------------
 Cases == GrammarCases
+AllCases == GrammarCases \cup MutCases
 Expand(c) == IF c[1] \in { "orig", "flip", "trunc", "ext", "sub32", "byte" } THEN ExpandMut(c) ELSE ExpandGrammar(c)
 
 \* design-level invariant of the generated space: every record addresses an entry point with bytes, and the entry points whose
@@ -382,7 +386,7 @@ VARIABLES phase, cur, rec
 vars == << phase, cur, rec >>
 Init == phase = "pick" /\ cur = << >> /\ rec = << >>
 Pick == phase = "pick" /\ \E c \in Cases : cur' = c /\ phase' = "eval" /\ rec' = << >>
-Eval == phase = "eval" /\ LET x == Expand(cur) IN rec' = [ e |-> x.e, in |-> x.in, out |-> Out(x) ]
+Eval == phase = "eval" /\ LET x == Expand(cur) IN rec' = [ e |-> x.e, in |-> x.in, out |-> Out(x), cls |-> cur[1] ]
         /\ phase' = "done" /\ cur' = cur
 Next == Pick \/ Eval
 InvWellFormed == phase = "done" => WellFormed(rec)
